@@ -4,6 +4,8 @@ package main
 // after every call, the error, the 188 bytes and every getter of both APIs.
 
 import (
+	"bytes"
+
 	"github.com/Comcast/gots/v2/packet"
 	"github.com/Comcast/gots/v2/packet/adaptationfield"
 )
@@ -92,6 +94,9 @@ func afGetters(p *packet.Packet) Val {
 	return VL(l...)
 }
 
+// set when a setter wrote into its argument (data slice or source packet): an input must stay untouched
+var argWritten bool
+
 // one setter call; returns the error and whether it panicked
 func afApply(p *packet.Packet, op Val) (err error, panicked bool, bad bool) {
 	defer func() {
@@ -133,9 +138,13 @@ func afApply(p *packet.Packet, op Val) (err error, panicked bool, bad bool) {
 	case 10:
 		err = af.SetSpliceCountdown(byte(arg.U()))
 	case 11:
-		err = af.SetTransportPrivateData(append([]byte{}, arg.B...))
+		d := append([]byte{}, arg.B...)
+		err = af.SetTransportPrivateData(d)
+		argWritten = argWritten || !bytes.Equal(d, arg.B)
 	case 12:
-		err = af.SetAdaptationFieldExtension(append([]byte{}, arg.B...))
+		d := append([]byte{}, arg.B...)
+		err = af.SetAdaptationFieldExtension(d)
+		argWritten = argWritten || !bytes.Equal(d, arg.B)
 	case 13:
 		if len(arg.B) != 188 {
 			return nil, false, true
@@ -143,6 +152,7 @@ func afApply(p *packet.Packet, op Val) (err error, panicked bool, bad bool) {
 		var src packet.Packet
 		copy(src[:], arg.B)
 		err = p.SetAdaptationField((*packet.AdaptationField)(&src))
+		argWritten = argWritten || !bytes.Equal(src[:], arg.B)
 	case 14: // the packet itself as the source: exercises the aliasing of copy()
 		err = p.SetAdaptationField((*packet.AdaptationField)(p))
 	default:
@@ -172,6 +182,10 @@ func init() {
 			st := VL(VI(0))
 			if err != nil {
 				st = VL(VI(1), VI(int64(errCode(err))))
+			}
+			if argWritten { // never produced by the model
+				st = VL(VI(7))
+				argWritten = false
 			}
 			out = append(out, VL(st, VB(p[:]), afGetters(&p)))
 		}
